@@ -1,3 +1,207 @@
 import Blue.Proofs.FileRefs
-/-! Property C07: the theorems the check builds and audits (spike inventory; the build phase
-    completes the list from DESIGN Appendix C.0). -/
+import Blue.Proofs.SnapRefs
+import Blue.Proofs.Snap
+import Blue.Proofs.SkipLife
+import Blue.Proofs.TreeScan
+import Blue.Proofs.LevelOver
+import Blue.Proofs.ScanSpec
+import Blue.Proofs.ScanCongr
+import Blue.Proofs.Stack
+import Blue.Driver.C08
+/-! # Property C07 — a scan cursor is a stable, memory-safe snapshot while the store moves under it
+
+Property theorems only.  A cursor returned by `KeyValueStore::range_scan` captures, under the state
+lock, the memtable, the immutable memtable, a reference to the current version and the read
+timestamp.  Three things keep it a snapshot:
+
+* **files** (`Blue.FileRefs`, shared with C08): a version that has a holder keeps its files in
+  `sst/`; `cursor_files_present` follows the counts along any run of installs (flush, compaction,
+  trivial move, garbage collection), snapshots and releases: while a cursor has not released its
+  reference, every file of its version is in `sst/` — so the lazy cursors, which open their files
+  by path on first use, find them.  This needs the cursor to OWN its reference
+  (fixes/d5-range-scan-cursor-owns-version-ref.diff); the code as it was released the reference
+  before returning the cursor: `reference_released_at_open_loses_files` (finding D-5).
+* **memory** (`Blue.SkipLife`, from C17): the skiplist nodes of a memtable are owned jointly by the
+  list handle and every iterator; nothing is released while a handle is held, everything when the
+  last one goes.
+* **contents** (`Blue.Snap`): the cursor stack is taken by its specification (`scan_spec`, C03): at
+  each call it shows the reference cursor over the versions of the captured components that are
+  live at the captured timestamp and in range.  The captured memtable keeps receiving writes until
+  it is rotated; `later_writes_are_screened` / `cursor_sees_snapshot_partial`: as long as those
+  carry sequence numbers above the read timestamp, every call shows what the reference cursor
+  over the list of open time shows, whatever else the store does in between.
+
+**Partial**, and why: (1) hypothesis (i) — no entry with sequence number ≤ the read timestamp is
+added to a captured memtable after the open — is a hypothesis here.  It was FALSE for the store as
+found (read timestamp = last ASSIGNED number, so a writer in flight at open time arrived later:
+finding D-6; `late_writer_leaks` shows the leak in this model).  Since the repair of D-6 (read
+timestamp = number of the last COMPLETED write) it is what `Blue.Props.C06.snapshot_stable` proves
+for every interleaving of writers, rollover and flush; the check also opens cursors while a writer
+thread runs and walks each twice; (2) the cursor stack is represented by its specification at every call; that the real
+merging cursor stays coherent when the memtable child grows between two calls is covered by the
+correspondence check only (every held cursor of every history is compared with this model);
+(3) no memory model: "never touches freed memory" is the ownership model plus the allocation
+registry and valgrind runs of the check, and atomics are taken as sequentially consistent. -/
+namespace Blue.Props.C07
+
+/-! ## files -/
+section files
+open Blue.FileRefs
+variable {F : Type} [DecidableEq F]
+
+/-- every file of every version that still has a holder is in `sst/` -/
+theorem held_files_present {s : St F} (h : Inv s) (v : Ver F) (hv : v ∈ s.versions) (hh : v.holders ≥ 1)
+    (f : F) (hf : f ∈ v.files) : f ∈ s.sst := Blue.FileRefs.held_files_present h v hv hh f hf
+
+/-- the reference-counting invariant is preserved by every event -/
+theorem refcount_invariant_preserved {s : St F} (h : Inv s) :
+    (∀ files, Inv (step s (.install files))) ∧ (CurOk s → Inv (step s .snapshot)) ∧ (∀ i, Inv (step s (.release i))) :=
+  ⟨fun files => inv_install h files, fun hc => inv_snapshot h hc, fun i => inv_release h i⟩
+
+/-- **a cursor's files stay**: from a freshly opened store, after ANY run of installs, snapshots
+    taken by cursors and releases by cursors, every file of a version to which a cursor still
+    holds a reference (`out i ≥ 1`) is in `sst/` -/
+theorem cursor_files_present (files : List F) (evs : List (Ev F)) (i : Nat)
+    (hi : (grun (init files, fun _ => 0) evs).2 i ≥ 1) (v : Ver F)
+    (hv : (grun (init files, fun _ => 0) evs).1.versions[i]? = some v) (f : F) (hf : f ∈ v.files) :
+    f ∈ (grun (init files, fun _ => 0) evs).1.sst :=
+  Blue.FileRefs.cursor_files_present (inv_init files) (ghost_init files) evs i hi v hv f hf
+
+/-- the invariant and the ghost count hold in every state of every run -/
+theorem refcount_run (files : List F) (evs : List (Ev F)) :
+    Inv (grun (init files, fun _ => 0) evs).1 ∧ Ghost (grun (init files, fun _ => 0) evs).1 (grun (init files, fun _ => 0) evs).2 :=
+  ghost_run (inv_init files) (ghost_init files) evs
+
+/-- the state the replay (`refs run`) starts from is the state the theorems start from -/
+example (files : List String) : Blue.Driver.C08.init files = init files := rfl
+
+/-- non-vacuity: a cursor takes a snapshot of version 0, a compaction installs another version,
+    the cursor still holds (`out 0 = 1`) and both files are in `sst/`; after its release they are
+    in `trash/` -/
+example :
+    let g1 := grun (init [1, 2], fun _ => 0) [.snapshot, .install [3]]
+    let g2 := gstep g1 (.release 0)
+    g1.2 0 = 1 ∧ g1.1.sst = [1, 2, 3] ∧ g1.1.trash = [] ∧ g2.2 0 = 0 ∧ g2.1.sst = [3] ∧ g2.1.trash = [2, 1] := by decide
+
+/-- **finding D-5 as a theorem about the code as it was**: `range_scan` released its reference
+    before it returned the cursor (`S` at once followed by `R`); the next compaction moves the
+    files of the cursor's version to `trash/` although the cursor has yet to open them -/
+theorem reference_released_at_open_loses_files :
+    let s := [Ev.snapshot, .release 0, .install [3]].foldl step (init [1, 2])
+    s.sst = [3] ∧ s.trash = [2, 1] := by decide
+
+end files
+
+/-! ## memory -/
+section memory
+open Blue.SkipLife
+
+/-- while a handle (the list or any iterator) is held, no node has been released -/
+theorem iterator_keeps_nodes_alive (s : St) (j : Nat) (h : held s j = true) : live s = s.nodes :=
+  held_live s j h
+
+/-- nodes are released exactly when the last holder (list or iterator) is gone -/
+theorem nodes_released_with_last_holder (s : St) : live s = 0 ↔ (holders s = 0 ∨ s.nodes = 0) :=
+  released_iff s
+
+/-- non-vacuity: the store drops the memtable (flush) while a cursor's iterator is held; the
+    iterator is used; the nodes go with the iterator -/
+example : ([Op.insert, .insert, .iter, .dropList, .use 0, .dropIter 0].foldl
+      (fun (acc : Option St × List Nat) op => match acc.1.bind (step · op) with
+        | some s => (some s, acc.2 ++ [live s]) | none => (none, acc.2)) (some {}, [])).2
+    = [2, 3, 3, 3, 3, 0] := by decide
+
+end memory
+
+/-! ## contents -/
+section contents
+open Blue.Spec Blue.Cursor Blue.Snap
+
+/-- the scan stack shows exactly the live versions in range (C03), at any read timestamp -/
+theorem scan_spec {K : Type} [DecidableEq K] {klt : K → K → Bool} (st : StrictTotal klt)
+    (M : List (Ver K × Nat)) (k : Nat) (fam : Family (vlt klt) M k)
+    (t : Nat) (tomb : Ver K → Bool) (sb eb : Bound K) (n : Nat) (hn : (M.map (·.1)).length + 2 ≤ n)
+    (C : Cur (Ver K)) (cs : List C.σ) (rs : List (Ref (Ver K)))
+    (hkids : (rs.map (·.xs)).Perm ((List.range k).map (childList M)))
+    (hbeh : cs.map (behA (SeekAdm klt) C) = rs.map (behA (SeekAdm klt) (RefCur (Ver K)))) :
+    BehEq (SeekAdm klt)
+      (BoundsC.cur (PruningC.cur (MergingC.cur C (vlt klt)) (pcfg t tomb) n) (bcfg klt sb eb) n)
+      (BoundsC.new (PruningC.cur (MergingC.cur C (vlt klt)) (pcfg t tomb) n) (bcfg klt sb eb)
+        (PruningC.new (MergingC.cur C (vlt klt)) (MergingC.new C (vlt klt) cs)))
+      (RefCur (Ver K))
+      ⟨((M.map (·.1)).filter (isLive (M.map (·.1)) t tomb)).filter (inRange klt sb eb), 0⟩ :=
+  Blue.Spec.scan_spec st M k fam t tomb sb eb n hn C cs rs hkids hbeh
+
+/-- the list a scan shows depends only on the set of versions — flush, trivial move and non-GC
+    compaction of the STORE change no scan, so a cursor opened later at the same timestamp would
+    show the same -/
+theorem scan_depends_only_on_versions {K : Type} [DecidableEq K] {klt : K → K → Bool} (st : StrictTotal klt)
+    (M M' : List (Ver K)) (hs : Sorted klt M) (hs' : Sorted klt M') (hsame : ∀ e, e ∈ M ↔ e ∈ M')
+    (t : Nat) (tomb : Ver K → Bool) (sb eb : Bound K) :
+    (M.filter (isLive M t tomb)).filter (inRange klt sb eb)
+      = (M'.filter (isLive M' t tomb)).filter (inRange klt sb eb) :=
+  scan_list_congr st M M' hs hs' hsame t tomb sb eb
+
+/-- the list the held-cursor model shows is the list `scan_spec` assigns to any table made of
+    exactly the versions of the captured components -/
+theorem held_view_is_scan_spec_list {K : Type} [DecidableEq K] {klt : K → K → Bool} (st : StrictTotal klt)
+    (tomb : Ver K → Bool) (sb eb : Bound K) (h : Held K) (M : List (Ver K)) (hs : Sorted klt M)
+    (hmem : ∀ e, e ∈ M ↔ e ∈ h.mem ++ h.rest) :
+    (M.filter (isLive M h.ts tomb)).filter (inRange klt sb eb) = view klt tomb sb eb h :=
+  view_eq st tomb sb eb h M hs hmem
+
+/-- **timestamp screening**: versions newer than the read timestamp, added to a table, change
+    nothing of what a read at that timestamp sees -/
+theorem later_writes_are_screened {K : Type} [DecidableEq K] {klt : K → K → Bool} (st : StrictTotal klt)
+    (M M' late : List (Ver K)) (hs : Sorted klt M) (hs' : Sorted klt M') (hmem : ∀ e, e ∈ M' ↔ e ∈ M ∨ e ∈ late)
+    (t : Nat) (hlate : ∀ e ∈ late, t < e.2) (tomb : Ver K → Bool) :
+    M'.filter (isLive M' t tomb) = M.filter (isLive M t tomb) :=
+  live_filter_stable st M M' late hs hs' hmem t hlate tomb
+
+/-- **the held cursor shows the open-time snapshot** (model level): for every script of calls
+    interleaved with writes into the captured memtable and with anything else the store does
+    (rollover, flush, version installs, clean-up), if the writes carry sequence numbers above the
+    read timestamp, the calls return what the reference cursor over the list of OPEN TIME
+    returns.  Partial: see the module comment (hypothesis (i) comes from C06 `snapshot_stable` on
+    the repaired store and was false as found — D-6; the cursor stack is represented by
+    `scan_spec`; no memory model). -/
+theorem cursor_sees_snapshot_partial {K : Type} [DecidableEq K] {klt : K → K → Bool} (st : StrictTotal klt)
+    (tomb : Ver K → Bool) (sb eb : Bound K) (ts : Nat) (mem rest : List (Ver K)) (toks : List (Tok K))
+    (hi : LateWritesAbove ts toks) :
+    run klt tomb sb eb ⟨ts, mem, rest, 0⟩ toks
+      = Ref.run ⟨view klt tomb sb eb ⟨ts, mem, rest, 0⟩, 0⟩ (opsOf toks) :=
+  run_eq_ref st tomb sb eb toks ⟨ts, mem, rest, 0⟩ hi
+
+/-- non-vacuity: key 1 is overwritten and key 2 is created (sequence numbers 6, 7) in the captured
+    memtable between two walks of a cursor opened at 5: both walks show the same -/
+example :
+    run Nat.blt (fun _ => false) .unbounded .unbounded ⟨5, [(1, 4)], [(3, 2)], 0⟩
+      [.op .first, .op .next, .op .next, .write [(1, 6)], .other, .write [(2, 7)], .op .first, .op .next, .op .next, .op .next]
+    = [none, some (1, 4), some (3, 2), none, some (1, 4), some (3, 2), none] := by decide
+
+/-- **finding D-6 at model level** (the store as found): hypothesis (i) is needed.  A writer that
+    was assigned sequence number 5 before the scan was opened (read timestamp 5 = last assigned)
+    and inserts afterwards appears in the held cursor: the second walk shows (1, 5) where the first
+    showed (1, 4) -/
+theorem late_writer_leaks :
+    run Nat.blt (fun _ => false) .unbounded .unbounded ⟨5, [(1, 4)], [], 0⟩
+      [.op .first, .op .next, .write [(1, 5)], .op .first, .op .next]
+    = [none, some (1, 4), none, some (1, 5)] := by decide
+
+end contents
+
+end Blue.Props.C07
+
+#print axioms Blue.Props.C07.held_files_present
+#print axioms Blue.Props.C07.refcount_invariant_preserved
+#print axioms Blue.Props.C07.cursor_files_present
+#print axioms Blue.Props.C07.refcount_run
+#print axioms Blue.Props.C07.reference_released_at_open_loses_files
+#print axioms Blue.Props.C07.iterator_keeps_nodes_alive
+#print axioms Blue.Props.C07.nodes_released_with_last_holder
+#print axioms Blue.Props.C07.scan_spec
+#print axioms Blue.Props.C07.scan_depends_only_on_versions
+#print axioms Blue.Props.C07.held_view_is_scan_spec_list
+#print axioms Blue.Props.C07.later_writes_are_screened
+#print axioms Blue.Props.C07.cursor_sees_snapshot_partial
+#print axioms Blue.Props.C07.late_writer_leaks
